@@ -185,8 +185,13 @@ def pipeline_cases(ctx, tab):
             year, sat = 2002 + rng.randint(0, 3), "noaa16"
         else:
             year, sat = 2000, "noaa14"
-        doy = rng.randint(1, 365)
-        start = ydm_to_ms(year, doy, rng.randint(0, 86000000))
+        leap = year % 4 == 0
+        # the pipeline takes year and day of year from the first line: include the ends of the year and day 366
+        doy = rng.choice([1, 59, 60, 365, 366 if leap else 365, rng.randint(1, 365), rng.randint(1, 365)])
+        if k < 2:
+            year = 2004 if fmt.startswith("klm") else 2000
+            doy = 366
+        start = ydm_to_ms(year, doy, rng.randint(0, 86000000 - 20000))
         tp = timesgen.TimePass(fmt, list(range(1, n + 1)), start)
         b = tp.build(ctx, rng)
         if fmt.startswith("klm"):
